@@ -271,18 +271,38 @@ def other_slots_untouched(new: Any, old: Any, slot: Any, prefixes: tuple = ("s",
     for j, (oneof, p) in ONEOF_OF_SLOT.items():
         same = And(which_tag(new, oneof) == which_tag(old, oneof),
                    getattr(new, f"{p}_bnode") == getattr(old, f"{p}_bnode"),
-                   getattr(new, f"{p}_iri").prefix_id == getattr(old, f"{p}_iri").prefix_id,
-                   getattr(new, f"{p}_iri").name_id == getattr(old, f"{p}_iri").name_id,
-                   getattr(new, f"{p}_literal").lex == getattr(old, f"{p}_literal").lex,
-                   getattr(new, f"{p}_literal").langtag == getattr(old, f"{p}_literal").langtag,
-                   getattr(new, f"{p}_literal").datatype == getattr(old, f"{p}_literal").datatype,
-                   which_tag(getattr(new, f"{p}_literal"), "literalKind") == which_tag(getattr(old, f"{p}_literal"), "literalKind"))
+                   _cf(new, f"{p}_iri", "prefix_id", 0) == _cf(old, f"{p}_iri", "prefix_id", 0),
+                   _cf(new, f"{p}_iri", "name_id", 0) == _cf(old, f"{p}_iri", "name_id", 0),
+                   _cf(new, f"{p}_literal", "lex", "") == _cf(old, f"{p}_literal", "lex", ""),
+                   _cf(new, f"{p}_literal", "langtag", "") == _cf(old, f"{p}_literal", "langtag", ""),
+                   _cf(new, f"{p}_literal", "datatype", 0) == _cf(old, f"{p}_literal", "datatype", 0),
+                   _ctag(new, f"{p}_literal", "literalKind") == _ctag(old, f"{p}_literal", "literalKind"))
         out.append(Implies(slot != j, same))
     return And(*out)
 
 
-def _which_eq(a: Any, b: Any) -> Any:
-    return a == b
+def _cf(m: Any, child: str, field: str, default: Any) -> Any:
+    """field of a sub-message, or its proto3 default when the sub-message object was never materialised"""
+    c = getattr(m, child)
+    return default if c is None else getattr(c, field)
+
+
+def _ctag(m: Any, child: str, oneof: str) -> Any:
+    c = getattr(m, child)
+    return z3.IntVal(0) if c is None else which_tag(c, oneof)
+
+
+def graph_group_untouched(new: Any, old: Any) -> Any:
+    """for an RdfQuad statement: the graph oneof group is exactly as before (s, p, o encoding never touches it)"""
+    if new.cls != "RdfQuad":
+        return True
+    return And(which_tag(new, "graph") == which_tag(old, "graph"), new.g_bnode == old.g_bnode,
+               _cf(new, "g_iri", "prefix_id", 0) == _cf(old, "g_iri", "prefix_id", 0),
+               _cf(new, "g_iri", "name_id", 0) == _cf(old, "g_iri", "name_id", 0),
+               _cf(new, "g_literal", "lex", "") == _cf(old, "g_literal", "lex", ""),
+               _cf(new, "g_literal", "langtag", "") == _cf(old, "g_literal", "langtag", ""),
+               _cf(new, "g_literal", "datatype", 0) == _cf(old, "g_literal", "datatype", 0),
+               _ctag(new, "g_literal", "literalKind") == _ctag(old, "g_literal", "literalKind"))
 
 
 def term_in_slot(e: Any, st: Any, slot: Any, t: Any, E: Any, O: Any) -> Any:
@@ -349,6 +369,7 @@ class _generic_encode_spo:
                "rows-account-for-table-changes": rows_account(O, E, e.result.items),
                "term-in-slot": term_in_slot(e, e.statement, e.slot, e.term, E, O),
                "other-slots-untouched": other_slots_untouched(e.statement, e.old.statement, e.slot),
+               "graph-group-untouched": graph_group_untouched(e.statement, e.old.statement),
                "message-written": msg_written(e.statement)}
         out.update(lru_all(O, E, e.term))
         return out
@@ -446,6 +467,7 @@ class _generic_encode_graph:
 # =========================================================================================== statement level
 from pyvc.contract import ITER, LISTOF  # noqa: E402
 from pyvc.spec import is_none, opt_val  # noqa: E402
+from pyvc.values import Seg  # noqa: E402
 
 SLOTS3 = (0, 1, 2)
 
@@ -500,15 +522,23 @@ def decode_spo_spec(st: Any, E: Any, lrP0: Any, lrN0: Any, rep: list, terms: lis
         pe = prefix_eff(lrP, iri.prefix_id)
         name_v = sel(TN.tbl, ne)
         prefix_v = Ite(And(en, pe != 0), sel(TP.tbl, pe), z3.StringVal(""))
+        pk, nk = enc_keys(GTerm.iri(t), en)
         iri_ok = And(which_is(st, f"{p}_iri"), 1 <= ne, ne <= TN.size, sel(TN.dfn, ne),
                      Implies(And(en, pe != 0), And(1 <= pe, pe <= TP.size, sel(TP.dfn, pe))),
                      Implies(Not(en), iri.prefix_id == 0),
-                     z3.Concat(prefix_v, name_v) == GTerm.iri(t))
+                     z3.Concat(prefix_v, name_v) == GTerm.iri(t),
+                     # the strings are still resident under the referenced ids and marked as used by this statement
+                     # (what lets a caller encode further terms without invalidating this one)
+                     od_touched(E.names.lookup.data, nk), od_get(E.names.lookup.data, nk) == ne,
+                     Implies(And(en, pe != 0), And(od_touched(E.prefixes.lookup.data, pk), od_get(E.prefixes.lookup.data, pk) == pe)),
+                     Implies(And(en, pe == 0), pk == ""))
         has_lang = And(GTerm.has_lang(t), GTerm.lang(t) != "")
         need = needs_dt(t)
         lit_ok = And(which_is(st, f"{p}_literal"), lit.lex == GTerm.lex(t),
                      Implies(need, And(which_is(lit, "datatype"), 1 <= lit.datatype, lit.datatype <= TD.size,
-                                       sel(TD.dfn, lit.datatype), sel(TD.tbl, lit.datatype) == GTerm.dt(t))),
+                                       sel(TD.dfn, lit.datatype), sel(TD.tbl, lit.datatype) == GTerm.dt(t),
+                                       od_touched(E.datatypes.lookup.data, GTerm.dt(t)),
+                                       od_get(E.datatypes.lookup.data, GTerm.dt(t)) == lit.datatype)),
                      Implies(And(has_lang, Not(need)), And(which_is(lit, "langtag"), lit.langtag == GTerm.lang(t))),
                      Implies(And(Not(has_lang), Not(need)), which_unset(lit, "literalKind")))
         bn_ok = And(which_is(st, f"{p}_bnode"), getattr(st, f"{p}_bnode") == GTerm.ident(t))
@@ -533,9 +563,11 @@ class _encode_spo_free:
               "statement": MSG("RdfTriple")}
     result = ROWS
     shards = 10
+    advances = {"terms": 3}
     modifies = ["terms", "term_encoder.names", "term_encoder.prefixes", "term_encoder.datatypes", "repeated_terms", "statement"]
     tags = {"subject-elided-iff-repeated": ["C19", "C03", "C01"], "predicate-elided-iff-repeated": ["C19", "C03", "C01"],
             "object-elided-iff-repeated": ["C19", "C03", "C01"]}
+    tag_suffix = {"@undersized-tables": ["C18"], "rejected-statement-leaves-no-trace": ["C20"]}
 
     def _terms(e, old=True):
         it = (e.old if old else e).terms
@@ -545,8 +577,7 @@ class _encode_spo_free:
         ts = [x for x in list(e.terms.items)[:3]]
         rep = e.repeated_terms.items[:3]
         st = e.statement
-        return And(wf_te(e.term_encoder), which_unset(st, "subject"), which_unset(st, "predicate"), which_unset(st, "object"),
-                   room_for(e.term_encoder, enc_occ(rep, ts, "n"), enc_occ(rep, ts, "d")))
+        return And(wf_te(e.term_encoder), which_unset(st, "subject"), which_unset(st, "predicate"), which_unset(st, "object"))
 
     def raises(e):
         ts = list(e.terms.items)[:3]
@@ -556,7 +587,15 @@ class _encode_spo_free:
         return {"NotImplementedError": x == 1, "JellyConformanceError": x == 2}
 
     def on_raise(e):
-        return {"tables-still-well-formed": wf_te(e.term_encoder)}
+        E, O = e.term_encoder, e.old.term_encoder
+        rep_new, rep_old = e.repeated_terms.items, e.old.repeated_terms.items
+        from pyvc.spec import eq as _eq
+        return {"tables-still-well-formed": wf_te(E),
+                # C20: a rejected statement must leave no trace in what later statements are encoded against
+                # (known finding D6: it does when an earlier slot was already encoded)
+                "rejected-statement-leaves-no-trace": And(
+                    enc_unchanged(E.names, O.names), enc_unchanged(E.prefixes, O.prefixes),
+                    enc_unchanged(E.datatypes, O.datatypes), *[_eq(a, b) for a, b in zip(rep_new, rep_old)])}
 
     def ensures(e):
         E, O = e.term_encoder, e.old.term_encoder
@@ -567,9 +606,18 @@ class _encode_spo_free:
                "rows-account-for-table-changes": rows_account(O, E, e.result.items),
                "previous-terms-updated": And(*[rep_equal(rep_new[j], ts[j]) for j in SLOTS3],
                                              rep_new[3] is e.old.repeated_terms.items[3] or True),
-               "three-terms-consumed": e.terms.pos == e.old.terms.pos + 3}
-        out.update(decode_spo_spec(e.statement, E, O.prefixes.T.lr, O.names.T.lr, rep_old, ts))
+               "three-terms-consumed": e.terms.pos == e.old.terms.pos + 3,
+               "graph-group-untouched": graph_group_untouched(e.statement, e.old.statement)}
         n_uses, d_uses = enc_occ(rep_old, ts, "n"), enc_occ(rep_old, ts, "d")
+        # C01's premise: every enabled table has room for what this statement encodes.  Outside it the same clauses
+        # are C18's subject (refused, not corrupted) and are known to fail today (known finding D7).
+        room = room_for(O, n_uses, d_uses)
+        for lab, cl in decode_spo_spec(e.statement, E, O.prefixes.T.lr, O.names.T.lr, rep_old, ts).items():
+            if "elided-iff" in lab:
+                out[lab] = cl
+            else:
+                out[lab] = Implies(room, cl)
+                out[lab + "@undersized-tables"] = Implies(Not(room), cl)
         en = E.prefixes.lookup.max_size > 0
         out.update({
             "lru-names": lru_step(O.names.lookup.data, E.names.lookup.data, E.names.lookup.max_size, n_uses),
@@ -579,3 +627,193 @@ class _encode_spo_free:
                                E.prefixes.lookup.max_size == O.prefixes.lookup.max_size,
                                E.datatypes.lookup.max_size == O.datatypes.lookup.max_size)})
         return out
+
+
+# ------------------------------------------------------------------------------------------ encode_triple / encode_quad
+def _reset_marks(E: Any) -> None:
+    """ghost: a statement starts - nothing has been used *by this statement* yet"""
+    for X in (E.names, E.prefixes, E.datatypes):
+        d = X.lookup.data
+        d.mark = d.top
+        d.t = z3.IntVal(0)
+
+
+def stmt_room(E: Any, rep: list, ts: list) -> Any:
+    """C01's premise for one statement, stated on the real tables: each enabled table is at least as large as the number
+    of entries the (non-elided) terms of the statement need from it"""
+    n_uses, d_uses = enc_occ(rep, ts, "n"), enc_occ(rep, ts, "d")
+    N, P, D = E.names.lookup, E.prefixes.lookup, E.datatypes.lookup
+    return And(n_uses <= N.max_size, Or(P.max_size == 0, n_uses <= P.max_size), Or(d_uses == 0, D.max_size == 0, d_uses <= D.max_size))
+
+
+@contract(f"{SE}:encode_triple", serves=["C03", "C01", "C19", "C18", "C20"])
+class _encode_triple:
+    params = {"terms": TUP(ADTS("gterm"), ADTS("gterm"), ADTS("gterm")), "term_encoder": OBJ(GENC),
+              "repeated_terms": LISTOF(OPT(ADTS("gterm")), 4)}
+    result = ROWS
+    shards = 4
+    modifies = ["term_encoder.names", "term_encoder.prefixes", "term_encoder.datatypes", "repeated_terms"]
+    tag_suffix = {"@undersized-tables": ["C18"]}
+    tags = {"subject-elided-iff-repeated": ["C19", "C03", "C01"], "predicate-elided-iff-repeated": ["C19", "C03", "C01"],
+            "object-elided-iff-repeated": ["C19", "C03", "C01"]}
+
+    def requires(e): return wf_te(e.term_encoder)
+
+    def ghost_enter(e): _reset_marks(e.term_encoder)
+
+    def raises(e):
+        ts = list(e.terms.items)
+        rep = e.repeated_terms.items[:3]
+        dz = e.term_encoder.datatypes.lookup.max_size == 0
+        x = first_exc(rep, ts, dz)
+        return {"NotImplementedError": x == 1, "JellyConformanceError": x == 2}
+
+    def on_raise(e): return {"tables-still-well-formed": wf_te(e.term_encoder)}
+
+    def ensures(e):
+        E, O = e.term_encoder, e.old.term_encoder
+        ts = list(e.terms.items)
+        rep_old = e.old.repeated_terms.items[:3]
+        rep_new = e.repeated_terms.items
+        items = list(e.result.items)
+        out = {"wf": wf_te(E)}
+        if not items or isinstance(items[-1], Seg):
+            out["statement-row-last"] = False
+            return out
+        row = items[-1]
+        out["statement-row-last"] = which_is(row, "triple")
+        # C03: every entry row precedes the statement row that refers to it, and the entry rows are exactly what
+        # changed the spec tables
+        out["entry-rows-first-and-account-for-table-changes"] = rows_account(O, E, items[:-1])
+        out["previous-terms-updated"] = And(*[rep_equal(rep_new[j], ts[j]) for j in SLOTS3])
+        room = stmt_room(O, rep_old, ts)
+        for lab, cl in decode_spo_spec(row.triple, E, O.prefixes.T.lr, O.names.T.lr, rep_old, ts).items():
+            if "elided-iff" in lab:
+                out[lab] = cl
+            else:
+                out[lab] = Implies(room, cl)
+                out[lab + "@undersized-tables"] = Implies(Not(room), cl)
+        out["sizes-fixed"] = And(E.names.lookup.max_size == O.names.lookup.max_size,
+                                 E.prefixes.lookup.max_size == O.prefixes.lookup.max_size,
+                                 E.datatypes.lookup.max_size == O.datatypes.lookup.max_size)
+        return out
+
+
+def decode_graph_spec(q: Any, E: Any, lrP: Any, lrN: Any, rep_g: Any, g: Any) -> dict:
+    """the graph slot of quad message q, decoded in the final tables after s, p, o"""
+    TP, TN, TD = E.prefixes.T, E.names.T, E.datatypes.T
+    en = E.prefixes.lookup.max_size > 0
+    elided = rep_equal(rep_g, g)
+    iri, lit = q.g_iri, q.g_literal
+    ne = name_eff(lrN, iri.name_id)
+    pe = prefix_eff(lrP, iri.prefix_id)
+    name_v = sel(TN.tbl, ne)
+    prefix_v = Ite(And(en, pe != 0), sel(TP.tbl, pe), z3.StringVal(""))
+    iri_ok = And(which_is(q, "g_iri"), 1 <= ne, ne <= TN.size, sel(TN.dfn, ne),
+                 Implies(And(en, pe != 0), And(1 <= pe, pe <= TP.size, sel(TP.dfn, pe))),
+                 Implies(Not(en), iri.prefix_id == 0), z3.Concat(prefix_v, name_v) == GTerm.iri(g))
+    has_lang = And(GTerm.has_lang(g), GTerm.lang(g) != "")
+    need = needs_dt(g)
+    lit_ok = And(which_is(q, "g_literal"), lit.lex == GTerm.lex(g),
+                 Implies(need, And(which_is(lit, "datatype"), 1 <= lit.datatype, lit.datatype <= TD.size,
+                                   sel(TD.dfn, lit.datatype), sel(TD.tbl, lit.datatype) == GTerm.dt(g))),
+                 Implies(And(has_lang, Not(need)), And(which_is(lit, "langtag"), lit.langtag == GTerm.lang(g))),
+                 Implies(And(Not(has_lang), Not(need)), which_unset(lit, "literalKind")))
+    return {
+        "graph-elided-iff-repeated": Iff(which_unset(q, "graph"), elided),
+        "graph-iri-decodes-to-input": Implies(And(Not(elided), GTerm.is_IRI(g)), iri_ok),
+        "graph-literal-decodes-to-input": Implies(And(Not(elided), GTerm.is_Lit(g)), lit_ok),
+        "graph-bnode-decodes-to-input": Implies(And(Not(elided), GTerm.is_BNode(g)), And(which_is(q, "g_bnode"), q.g_bnode == GTerm.ident(g))),
+        "graph-default-decodes-to-input": Implies(And(Not(elided), GTerm.is_DefaultGraph(g)), which_is(q, "g_default_graph")),
+    }
+
+
+import os as _os  # noqa: E402
+# work in progress: the graph slot on top of s, p, o makes the queries slow and unstable (see DESIGN.md);
+# until it is decomposed further encode_quad is *not* under contract in the registered checks (bounded nets cover it)
+_quad_deco = contract(f"{SE}:encode_quad", serves=["C03", "C01", "C19", "C18", "C20"]) if _os.environ.get("PYVC_WIP") == "1" else (lambda c: c)
+
+
+@_quad_deco
+class _encode_quad:
+    params = {"terms": TUP(ADTS("gterm"), ADTS("gterm"), ADTS("gterm"), ADTS("gterm")), "term_encoder": OBJ(GENC),
+              "repeated_terms": LISTOF(OPT(ADTS("gterm")), 4)}
+    result = ROWS
+    shards = 8
+    modifies = ["term_encoder.names", "term_encoder.prefixes", "term_encoder.datatypes", "repeated_terms"]
+    tag_suffix = {"@undersized-tables": ["C18"]}
+    tags = {"subject-elided-iff-repeated": ["C19", "C03", "C01"], "predicate-elided-iff-repeated": ["C19", "C03", "C01"],
+            "object-elided-iff-repeated": ["C19", "C03", "C01"], "graph-elided-iff-repeated": ["C19", "C03", "C01"]}
+
+    def requires(e): return wf_te(e.term_encoder)
+
+    def ghost_enter(e): _reset_marks(e.term_encoder)
+
+    def _uses(rep, ts):
+        g = ts[3]
+        gel = rep_equal(rep[3], g)
+        n = enc_occ(rep[:3], ts[:3], "n") + z3.If(gel, 0, graph_occ_n(g))
+        d = enc_occ(rep[:3], ts[:3], "d") + z3.If(gel, 0, graph_occ_d(g))
+        return n, d
+
+    def raises(e):
+        ts = list(e.terms.items)
+        rep = e.repeated_terms.items
+        dz = e.term_encoder.datatypes.lookup.max_size == 0
+        x = first_exc(rep[:3], ts[:3], dz)
+        gx = z3.If(rep_equal(rep[3], ts[3]), 0, graph_exc(ts[3], dz))
+        x = z3.If(x != 0, x, gx)
+        return {"NotImplementedError": x == 1, "JellyConformanceError": x == 2}
+
+    def on_raise(e): return {"tables-still-well-formed": wf_te(e.term_encoder)}
+
+    def ensures(e):
+        E, O = e.term_encoder, e.old.term_encoder
+        ts = list(e.terms.items)
+        rep_old = e.old.repeated_terms.items
+        rep_new = e.repeated_terms.items
+        items = list(e.result.items)
+        out = {"wf": wf_te(E)}
+        if not items or isinstance(items[-1], Seg):
+            out["statement-row-last"] = False
+            return out
+        row = items[-1]
+        q = row.quad
+        out["statement-row-last"] = which_is(row, "quad")
+        out["entry-rows-first-and-account-for-table-changes"] = rows_account(O, E, items[:-1])
+        out["previous-terms-updated"] = And(*[rep_equal(rep_new[j], ts[j]) for j in (0, 1, 2, 3)])
+        n_uses, d_uses = _encode_quad._uses(rep_old, ts)
+        N, P, D = O.names.lookup, O.prefixes.lookup, O.datatypes.lookup
+        room = And(n_uses <= N.max_size, Or(P.max_size == 0, n_uses <= P.max_size),
+                   Or(d_uses == 0, D.max_size == 0, d_uses <= D.max_size))
+        spo = decode_spo_spec(q, E, O.prefixes.T.lr, O.names.T.lr, rep_old[:3], ts[:3])
+        # delta bases before the graph term = after s, p, o: recomputed by the same chain
+        lrP, lrN, chain_ok = _chain_after_spo(q, E, O.prefixes.T.lr, O.names.T.lr, rep_old[:3], ts[:3])
+        spo.pop("last-referenced-ids-follow", None)
+        g = decode_graph_spec(q, E, lrP, lrN, rep_old[3], ts[3])
+        for lab, cl in list(spo.items()) + [(k, Implies(chain_ok, v)) if "elided-iff" not in k else (k, v) for k, v in g.items()]:
+            if "elided-iff" in lab:
+                out[lab] = cl
+            else:
+                out[lab] = Implies(room, cl)
+                out[lab + "@undersized-tables"] = Implies(Not(room), cl)
+        out["sizes-fixed"] = And(E.names.lookup.max_size == O.names.lookup.max_size,
+                                 E.prefixes.lookup.max_size == O.prefixes.lookup.max_size,
+                                 E.datatypes.lookup.max_size == O.datatypes.lookup.max_size)
+        return out
+
+
+def _chain_after_spo(st: Any, E: Any, lrP0: Any, lrN0: Any, rep: list, terms: list) -> tuple[Any, Any, Any]:
+    en = E.prefixes.lookup.max_size > 0
+    lrP, lrN = lrP0, lrN0
+    chain_ok: Any = True
+    for p, r, t in zip(("s", "p", "o"), rep, terms):
+        elided = rep_equal(r, t)
+        iri = getattr(st, f"{p}_iri")
+        ne = name_eff(lrN, iri.name_id)
+        pe = prefix_eff(lrP, iri.prefix_id)
+        enc_iri = And(Not(elided), GTerm.is_IRI(t))
+        lrN = Ite(enc_iri, ne, lrN)
+        lrP = Ite(And(enc_iri, en), pe, lrP)
+        chain_ok = And(chain_ok, Or(elided, Not(GTerm.is_QTriple(t))))
+    return lrP, lrN, chain_ok
